@@ -325,7 +325,7 @@ def r09_4(ctx):
             a = f["args"]
             ok = len(a) >= 2 and "Cursor" in a[0] and "Cursor" not in a[1]
             ctx.ob("chain:types", ok, sup.site(n), f"chain::<{a}>: receiver holds the prefix cursor, argument is the source" if ok else f"chain operands swapped: {a}")
-            r = strace(sup, n, t["args"][0], extra=("FusedReader", "::new"))
+            r = strace(sup, n, t["args"][0], extra=("::new",))
             s2 = strace(sup, n, t["args"][1])
             rf = [st[1] for st in r.steps if st[0] == "field"]
             sf = [st[1] for st in s2.steps if st[0] == "field"]
